@@ -926,9 +926,10 @@ pub fn stress_parts(id: &str) -> Vec<StressPart> {
         "C02" => vec![p(Kind::Invariants, 640, 12000, 25), p(Kind::Validated, 200, 4000, 25), pc(Kind::Invariants, 2400, 20000, 25)],
         "C17" => vec![p(Kind::Invariants, 640, 12000, 25), p(Kind::Lookups, 240, 4000, 35)],
         "C01" | "C06" => vec![p(Kind::Invariants, 640, 12000, 25)],
-        "C08" => vec![p(Kind::Invariants, 640, 16000, 25)],
+        "C08" => vec![p(Kind::Invariants, 1280, 16000, 25)],
         "C11" => vec![p(Kind::Invariants, 640, 12000, 25)],
         "C04" => vec![p(Kind::Invariants, 320, 6000, 25)],
+        "C16" => vec![p(Kind::Invariants, 320, 6000, 25), p(Kind::Reclaim, 96, 2000, 50)],
         "C05" => vec![p(Kind::Reclaim, 96, 2000, 50)],
         "C09" => vec![p(Kind::Validated, 480, 8000, 25)],
         "C15" => vec![p(Kind::Lookups, 480, 8000, 35)],
@@ -937,7 +938,6 @@ pub fn stress_parts(id: &str) -> Vec<StressPart> {
         "C10" => vec![p(Kind::Barrier, 640, 12000, 25), p(Kind::WaitRace, 640, 12000, 25)],
         "C12" => vec![p(Kind::Close, 960, 16000, 30)],
         "C20" => vec![p(Kind::Config, 960, 16000, 30), p(Kind::Close, 480, 8000, 30)],
-        "C16" => vec![p(Kind::Invariants, 320, 6000, 25)],
         "C19" => vec![
             p(Kind::Invariants, 320, 6000, 100),
             p(Kind::Barrier, 240, 5000, 100),
@@ -1190,7 +1190,7 @@ pub fn stress_rule(id: &str) -> (&'static str, &'static [&'static str]) {
             &["the OS schedule is sampled, not enumerated"],
         ),
         _ => (
-            "stress part: 2-6 real client threads with generated scripts on shared keys against a cache with real workers (tight capacity, TTLs under a global virtual clock, 5ms real ticker); inline: a lookup returns only a value written under that key and not yet handed to a callback before the lookup began; at quiescence: charged total == sum of charges, resident keys == charged keys (if no call returned Err), callback conservation, metrics conservation",
+            "stress part: 2-6 real client threads with generated scripts on shared keys against a cache with real workers (tight capacity, TTLs under a global virtual clock, 5ms real ticker); inline: a lookup returns only a value written under that key and not yet handed to a callback before the lookup began; at quiescence: charged total == sum of charges, resident keys == charged keys (if no call returned Err), callback conservation, metrics conservation, every cost reported to on_reject is the newcomer's own charge and every cost reported to on_evict the charge of some value written under that key (or, for an item a clear()/stop drain discarded from the buffer, the cost as queued); one case in five is a hot-key case (every thread on the same two keys); reclaim part (C05, C16): entries with TTLs expire under continuing traffic and must reach on_evict exactly once with the cost they were charged",
             &["the OS schedule is sampled, not enumerated"],
         ),
     }
